@@ -83,9 +83,9 @@ Lemma read_total d s : ok_or_err (run_flat (bs_read d) s).
 Proof.
   unfold bs_read. rewrite run_flat_bind by apply read32_robust.
   pose proof (read32_cap s) as H.
-  destruct (run_flat read32 s) as [[cnt n0] r| | |]; try contradiction; cbn; auto.
-  destruct (cnt <? 0)%Z; cbn; auto.
-  destruct (8 * Z.to_N cnt <=? lenN r); cbn; auto.
+  destruct (run_flat read32 s) as [[cnt n0] r| | |]; try contradiction; [|exact I].
+  destruct (cnt <? 0)%Z; [exact I|]. cbn [run_flat].
+  destruct (8 * Z.to_N cnt <=? lenN r); exact I.
 Qed.
 
 Lemma read_negative d s cnt n0 r : run_flat read32 s = FOk (cnt, n0) r -> (cnt < 0)%Z ->
